@@ -426,17 +426,25 @@ pub trait Prover {
             deep_composition_poly
         };
 
-        // make sure the degree of the DEEP composition polynomial is equal to trace polynomial
-        // degree minus 1.
-        assert_eq!(trace_length - 2, deep_composition_poly.degree());
+        // make sure the degree of the DEEP composition polynomial does not exceed trace polynomial
+        // degree minus 1, which keeps it within the degree bound FRI is run against. The degree is
+        // equal to this value for generic traces, but is lower for valid degenerate ones (e.g. the
+        // DEEP composition polynomial of an all-constant trace is the zero polynomial).
+        assert!(
+            deep_composition_poly.degree() <= trace_length - 2,
+            "degree of DEEP composition polynomial must be at most {}, but was {}",
+            trace_length - 2,
+            deep_composition_poly.degree()
+        );
 
         // 5 ----- evaluate DEEP composition polynomial over LDE domain ---------------------------
         let deep_evaluations = {
             let span = info_span!("evaluate_deep_composition_poly").entered();
             let deep_evaluations = deep_composition_poly.evaluate(&domain);
             // we check the following condition in debug mode only because infer_degree is an
-            // expensive operation
-            debug_assert_eq!(trace_length - 2, infer_degree(&deep_evaluations, domain.offset()));
+            // expensive operation; as above, the degree is an upper bound rather than an exact
+            // value because valid degenerate traces yield polynomials of lower degree
+            debug_assert!(infer_degree(&deep_evaluations, domain.offset()) <= trace_length - 2);
 
             drop(span);
             deep_evaluations
